@@ -40,6 +40,37 @@ SPECIAL_FLOATS = ["0.0", "1.5", "0.1", "3.14", "18.0", "1.0", "0.300000000000000
                   "1.7976931348623157", "4.9406564584124654", "100.0", "0.10000000000000000555"]
 
 
+def _exact_decimal(fr, below=False):
+    """finite decimal expansion of a Fraction whose denominator is a power of two (below: lowered by one unit six places further)"""
+    k = fr.denominator.bit_length() - 1
+    assert fr.denominator == 1 << k
+    n = fr.numerator * 5 ** k  # fr = n / 10^k
+    if below or not k:
+        n, k = n * 10 ** 6 - (1 if below else 0), k + 6
+    digits = str(n).rjust(k + 1, "0")
+    return digits[:-k] + "." + digits[-k:]
+
+
+def _long_floats():
+    """decimal literals whose value is decided by digits far to the right: the exact expansion of the midpoint between two adjacent
+    doubles (a tie), the same plus a final 1 (just above) and with its last digit lowered (just below); tiny decimals written out in
+    full; long integer parts.  The oracle is float(text), i.e. the correctly rounded double"""
+    import math
+    from fractions import Fraction
+
+    out = []
+    for x in (1.0, 0.1, 0.3, 123.456, 9007199254740992.0, 2.5e-7, 1e22, 0.9999999999999999, 5e-324, 2.2250738585072014e-308):
+        mid = (Fraction(x) + Fraction(math.nextafter(x, math.inf))) / 2
+        t = _exact_decimal(mid)
+        out += [t, t + "1", _exact_decimal(mid, below=True), t + "0" * 30]
+    out += ["0." + "0" * z + d for z in (30, 39, 40, 41, 44, 60, 100, 322, 323, 330, 400) for d in ("1", "5", "25")]
+    out += ["1" + "0" * z + ".5" for z in (20, 31, 32, 33, 40, 64, 300, 308)] + ["9" * 40 + "." + "9" * 40, "0" * 50 + "1." + "0" * 50 + "1"]
+    return out
+
+
+LONG_FLOATS = _long_floats()
+
+
 def _str_lit(s, q=None):
     if q is None:
         q = "'" if '"' in s else '"'
@@ -60,7 +91,9 @@ def scalar_lits(draw):
                              st.integers(1, 40).flatmap(lambda n: st.text(alphabet="0123456789", min_size=n, max_size=n))))
         return M.lit_int(src, draw(st.integers(0, 3)) == 0)
     else:
-        src = draw(st.one_of(st.sampled_from(SPECIAL_FLOATS),
+        src = draw(st.one_of(st.sampled_from(SPECIAL_FLOATS), st.sampled_from(LONG_FLOATS),
+                             st.tuples(st.text(alphabet="0123456789", min_size=1, max_size=3), st.integers(20, 70),
+                                       st.text(alphabet="0123456789", min_size=1, max_size=70)).map(lambda t: t[0] + "." + "0" * t[1] + t[2]),
                              st.tuples(st.text(alphabet="0123456789", min_size=1, max_size=20),
                                        st.text(alphabet="0123456789", min_size=1, max_size=20)).map(lambda t: t[0] + "." + t[1])))
         return M.lit_float(src, draw(st.integers(0, 3)) == 0)
@@ -308,6 +341,8 @@ def fixed_cases():
     for s in SPECIAL_INTS:
         yield {"lit": M.lit_int(s), "other": M.lit_str("o")}
         yield {"lit": M.lit_int(s, True), "other": M.lit_float("0.5")}
+    for s in LONG_FLOATS:
+        yield {"lit": M.lit_float(s), "other": M.lit_float("0.5")}
     for s in SPECIAL_FLOATS:
         yield {"lit": M.lit_float(s), "other": M.lit_str("o")}
         yield {"lit": M.lit_float(s, True), "other": M.lit_int("3")}
